@@ -37,18 +37,32 @@ class H(Harness):
             dyn = rnd.choice(['stochastic', 'synchronous'])
             tb = kcommon.gen_table(rnd, dyn, rep_in_progs=(i % 5 == 0))
             out.append({'table': tb, 'dynamics': dyn, 'seed': rnd.randrange(1 << 30)})
+        # shipped models (direct oracle only here; their whole-run tie is Tie/Compart.v under C07/C08/C12)
+        from harness import compart
+        for i in range(max(30, n // 5)):
+            c = compart.gen_case(rnd)
+            c['seq'] = rnd.random() < 0.5
+            out.append(c)
         return out
 
     def execute(self, case):
+        if 'model' in case:
+            from harness import compart
+            return compart.run_case(case)
         return kcommon.run_case(case)
 
     def to_coq(self, case, obs):
+        if 'model' in case:
+            return None
         return kcommon.to_coq(case, obs)
 
     def direct(self, case, obs):
         v = []
         if obs.get('skipped'):
             return []
+        if 'model' in case:
+            from harness import compart
+            return compart.direct_c03(case, obs)
         if obs['exception']:
             return [{'signature': 'run-raised', 'detail': obs['exception']}]
         seq = obs['obs']
@@ -107,6 +121,8 @@ class H(Harness):
     def nontrivial(self, case, obs):
         if obs.get('skipped'):
             return None
+        if 'model' in case:
+            return str(sorted(case.items(), key=str)) if len(obs.get('snaps', [])) >= 4 else None
         hs = [o for o in obs.get('obs', []) if o[0] == 'handler']
         kinds = {('posted' if o[5] is None else 'stoch') for o in hs}
         if len(hs) >= 3 and len(kinds) >= 2:
@@ -114,5 +130,7 @@ class H(Harness):
         return None
 
     def sample_view(self, case, obs):
+        if 'model' in case:
+            return {'case': case, 'events': (obs.get('events_log') or [])[:8]}
         return {'table': case['table'], 'dynamics': case['dynamics'], 'first_observations': obs.get('obs', [])[:12],
                 'TIME': obs.get('time'), 'EVENTS': obs.get('events')}
